@@ -71,13 +71,17 @@ def allocEntry (s : Session) (st : List PropMap × List (Name × Ref)) (ke : Nam
     | some r => (st.1, st.2 ++ [(ke.1, r)])
     | none => st
 
+/-- `Param(**p)` (config.py:52-56): a new `Param` with the items of `p`; the item `value` is taken out as an argument
+and entered last -/
+def paramCopy (p : PropMap) : PropMap := p.filter (fun kv => !(kv.1 == "value")) ++ p.filter (fun kv => kv.1 == "value")
+
 /-- one member of a `Group(...)` argument (config.py:80-86, repaired: the `Param` object the module was given may be used
-for other modules, too — it is copied, and `group` is written into the copy; `d['group'] = g` keeps the position of an
-existing item and appends a new one).  A member without entry is a `KeyError` in Python: the load fails as a whole and is
+for other modules, too — it is copied (`paramCopy`), and `group` is written into the copy; `d['group'] = g` keeps the
+position of an existing item and appends a new one).  A member without entry is a `KeyError` in Python: the load fails as a whole and is
 not applied in the model. -/
 def regroup (g : PVal) (st : List PropMap × List (Name × Ref)) (member : Name) : List PropMap × List (Name × Ref) :=
   match (aget? st.2 member).bind (fun r => st.1[r]?) with
-  | some p => (st.1 ++ [aput p "group" g], aput st.2 member st.1.length)
+  | some p => (st.1 ++ [aput (paramCopy p) "group" g], aput st.2 member st.1.length)
   | none => st
 
 def applyGroups (groups : List (PVal × List Name)) (st : List PropMap × List (Name × Ref)) :
